@@ -334,8 +334,12 @@ def _main(pid, tier, seed, args, t0):
         nviol += 1
         out_lines.append(f"VIOLATION property={pid} replay={fn}")
 
+    seen_kf = set()
     for k in known:
         what = k.get("obligation") or k.get("native")
+        if k["finding"] in seen_kf:
+            continue
+        seen_kf.add(k["finding"])
         out_lines.append(f"KNOWN-FINDING: property={pid} {what} :: {k['finding']}")
 
     # ---- evidence
